@@ -181,9 +181,11 @@ func runC03Req(c *Ctx, wl *walkLayers) {
 					} else {
 						provedEmpty = true
 					}
-				case strings.HasPrefix(k, `eq("",`) && strVals[k[len(`eq("",`):len(k)-1]]:
-					// URL parameter value compared with ""
-					if v == 0 {
+				}
+			}
+			for sv := range strVals { // URL parameter value compared with "" / by length
+				if z, ok := stringEmptiness(func(a string) (int, bool) { v, ok := ps.PC[a]; return v, ok }, sv); ok {
+					if z == 0 {
 						provedNonEmpty = true
 					} else {
 						provedEmpty = true
